@@ -1,4 +1,4 @@
-"""C31 - tensor products equal NumPy for any chunking (decompositions: not decided).
+"""C31 - tensor products equal NumPy for any chunking; decompositions: structure, triangularity, reconstruction.
 
 Pattern C.  specs/array/Tensor.tla defines tensordot / dot / inner / outer / vdot / matmul (broadcasting
 batch axes, 1-d promotion) / einsum (explicit and implicit output, ellipsis, repeated letters, extent-1
@@ -11,8 +11,14 @@ output block computed through its own key.  code -> spec: seeded random larger c
 chunkings incl. zero-width chunks, random axes / random einsum subscripts) are recorded and TLC decides
 every record (TensorTrace.tla).  NumPy is only the reference *guard*.
 
-qr / svd / tsqr / sfqr (orthonormality, triangularity, reconstruction, singular values) are statements of
-floating-point linear algebra; an explicit-state integer model cannot express them and they are NOT decided."""
+qr / svd / tsqr / sfqr: the factors themselves are floating-point linear algebra that an integer model cannot
+compute.  The specification gives the documented domain of each function (which chunkings are supported), the
+factor shapes and the chunk-consistency clause; TLC enumerates every row chunking (incl. row blocks shorter than the
+matrix is wide) x one-block / split column chunking of small tall, square and fat matrices; inside the domain the
+real call must not raise, the factors must have the specified shapes, every block must match .chunks, R must be
+exactly upper triangular, and the errors of the reconstruction, of Q'Q = I and of the singular values - computed by
+the harness from the real factors of a small integer matrix and reported as integers - must stay below 1e-6 (TLC
+decides every record).  lstsq / solve / inv / lu / cholesky need scipy, which is absent: not decided."""
 from __future__ import annotations
 
 import itertools
@@ -24,7 +30,7 @@ from ..core import TLA, MachineryError
 from ..par import pmap
 
 META = {
-    "title": "Tensor products equal NumPy for any chunking (decompositions not decided)",
+    "title": "Tensor products equal NumPy for any chunking; qr / svd are defined, well-shaped, triangular and reconstruct their input",
     "design_ref": "DESIGN.md §4.3 C31",
     "technique": "TLA+ reference semantics of tensordot/dot/inner/outer/vdot/matmul/einsum as integer sums of products over element "
                  "ids; TLC enumerates shapes x axes specifications x einsum subscripts and all chunkings; replay into dask + TLC "
@@ -36,17 +42,24 @@ META = {
                   "output, NumPy errors; thorough: also with extents 2 and 3 exchanged); the TLA+ reference gives shape, content and "
                   "error and is checked against itself (tensordot/matmul/outer = the corresponding einsum). Every case is replayed on "
                   "dask under all chunkings of the operands (thorough; capped per case) or a seeded sample of them (quick), block by "
-                  "block. Random larger cases are decided by TLC from recorded calls.",
-    "level_note": "NOT DECIDED: qr / svd / tsqr / sfqr - orthonormal Q, upper-triangular R, reconstruction and singular values are "
-                  "floating-point linear algebra that an explicit-state integer model can neither express nor evaluate; this half of "
-                  "the property is outside the check (it is not examined by other means either). Trusted: TLC, the TLA+ reference "
+                  "block. Random larger cases are decided by TLC from recorded calls. Decompositions: qr / tsqr / sfqr / svd on tall, "
+                  "square and fat matrices up to 6x3 (quick) / 8x4 (thorough), every chunking of the long axis (row blocks shorter than "
+                  "the matrix is wide included) x one-block or split short axis: inside the documented domain (given by the "
+                  "specification) no exception, factor shapes (m,k)(k,n) [(m,k)(k)(k,n)], blocks consistent with the declared chunks, "
+                  "R exactly upper triangular, reconstruction / orthonormality / singular values within 1e-6 (error measures computed "
+                  "from the real factors, decided by TLC).",
+    "level_note": "Decompositions: the factors are floating-point linear algebra an explicit-state integer model cannot compute; the "
+                  "specification decides domain, shapes, chunk consistency, and thresholds on error measures that the harness computes "
+                  "with NumPy from the real factors of ONE small integer matrix per shape (so numerical quality on other data, "
+                  "conditioning, sign conventions are not decided). lstsq / solve / inv / lu / cholesky / solve_triangular need "
+                  "scipy (absent): not decided; svd_compressed (randomized) not decided. Trusted: TLC, the TLA+ reference "
                   "(cross-checked against NumPy on every case; a disagreement is a machinery error), the block-assembly projection, "
                   "NumPy's per-block kernels. da.inner does not exist in this dask (np.inner falls back to NumPy): inner cases are "
                   "skipped. einsum with a letter repeated in one operand is run only with equal chunking on the repeated axes "
                   "(which dask requires). Integer ids only: dtype promotion and floating-point summation order are not examined.",
 }
 
-INVS = ["TensorDotIsEinsum", "MatrixProductsAgree", "MatMulIsEinsum", "OuterIsEinsum", "CellsSane"]
+INVS = ["TensorDotIsEinsum", "MatrixProductsAgree", "MatMulIsEinsum", "OuterIsEinsum", "CellsSane", "DecompSane"]
 OPS = ["tensordot", "dot", "inner", "outer", "vdot", "matmul", "einsum"]
 ELL = 0
 
@@ -460,12 +473,135 @@ def decide(ctx, items, recs, violation, count):
     return go, finish
 
 
+# ------------------------------------------------------------------ decompositions: structural clauses
+DECOMP = ("qr", "tsqr", "sfqr", "svd")
+UNIT = 1e-10          # error measures are reported to TLC as integers in this unit (relative to max |A|)
+
+
+def matrix(m, n):
+    """the matrix that is decomposed: small integers, full rank for the shapes used"""
+    return np.array([[((i * 7 + j * 3 + i * j) % 11) + (5 if i == j else 0) for j in range(n)] for i in range(m)], dtype="f8")
+
+
+def _units(err, scale):
+    v = float(err) / (scale * UNIT) if scale else float(err) / UNIT
+    return int(min(v, 1e9)) if v == v else 10 ** 9
+
+
+def run_decomp(item):
+    """one decomposition of the real code -> record for TensorTrace (DecompBad)"""
+    import warnings
+    import dask.array as da
+    from dask.array import linalg as L
+    rid, case, variant = item
+    warnings.simplefilter("ignore")
+    (m, n), op, dch = case["shapes"][0], case["op"], case["dch"]
+    rec = {"id": rid, "c": {"op": op, "shapes": [[m, n]], "dch": [list(dch[0]), list(dch[1])]}, "variant": variant,
+           "raised": "", "f": [], "rlow": 0, "recon": 0, "orth": 0, "sv": 0}
+    a = matrix(m, n)
+    try:
+        x = da.from_array(a, chunks=(tuple(dch[0]), tuple(dch[1])))
+        if op == "qr":
+            fs = L.qr(x) if variant % 2 == 0 else da.linalg.qr(x)
+        elif op == "tsqr":
+            fs = L.tsqr(x)
+        elif op == "sfqr":
+            fs = L.sfqr(x)
+        else:
+            if variant % 3 == 1 and len(dch[1]) == 1:
+                fs = L.tsqr(x, compute_svd=True)
+                if m < n:                      # (svd() itself removes the surplus singular vectors)
+                    fs = L.svd(x)
+            elif variant % 3 == 2:
+                fs = L.svd(x, coerce_signs=False)
+            else:
+                fs = L.svd(x)
+        vals = []
+        for f in fs:
+            obs, full = observe(f, whole_too=True)
+            obs = {k: obs[k] for k in ("lshape", "chunks", "cshape", "blocksok")}
+            rec["f"].append(obs)
+            vals.append(np.asarray(full, dtype="f8") if full is not None else None)
+        k = min(m, n)
+        if all(v is not None for v in vals) and [list(v.shape) for v in vals] == ([[m, k], [k, n]] if op != "svd" else [[m, k], [k], [k, n]]):
+            scale = float(np.abs(a).max()) or 1.0
+            if op == "svd":
+                u, sv, vt = vals
+                rec["recon"] = _units(np.abs((u * sv) @ vt - a).max(initial=0), scale)
+                rec["orth"] = _units(max(np.abs(u.T @ u - np.eye(k)).max(initial=0), np.abs(vt @ vt.T - np.eye(k)).max(initial=0)), 1.0)
+                rec["sv"] = _units(np.abs(sv - np.linalg.svd(a, compute_uv=False)).max(initial=0), scale)
+            else:
+                q, r = vals
+                rec["rlow"] = int(np.count_nonzero(np.tril(r, -1)))
+                rec["recon"] = _units(np.abs(q @ r - a).max(initial=0), scale)
+                rec["orth"] = _units(np.abs(q.T @ q - np.eye(k)).max(initial=0), 1.0)
+    except Exception as ex:  # noqa: BLE001 - an observation (judged only inside the documented domain)
+        rec["raised"] = "%s: %s" % (type(ex).__name__, str(ex)[:100].replace("\n", " "))
+        rec["f"] = []
+    return rec
+
+
+def decomp_class(case):
+    (m, n), dch = case["shapes"][0], case["dch"]
+    f = ["tall" if m > n else "fat" if m < n else "square"]
+    if len(dch[0]) > 1 and len(dch[1]) == 1 and any(c < n for c in dch[0][:-1]):
+        f.append("short-row-block")
+    elif len(dch[0]) > 1 and len(dch[1]) == 1 and dch[0][-1] < n:
+        f.append("short-last-row-block")
+    if len(dch[1]) > 1 and len(dch[0]) == 1 and any(c < m for c in dch[1]):
+        f.append("narrow-column-block")
+    return "+".join(f)
+
+
+def decomp_clause_py(exp, rec):
+    """the clauses that need no TLC: outside the documented domain nothing is judged"""
+    if not exp["dom"]:
+        return None
+    if rec["raised"]:
+        return "UnexpectedRaise"
+    if [o["cshape"] for o in rec["f"]] != [list(x) for x in exp["fshapes"]]:
+        return "FactorShapes"
+    return None
+
+
+def replay_decomps(ctx_rng, dcases, violation, count, skip, prefix="d"):
+    items = [("%s%d" % (prefix, i), c["c"], ctx_rng.randrange(60)) for i, c in enumerate(dcases)]
+    recs = pmap(run_decomp, items, procs=procs_for(len(items) * 8), chunk=32)
+    for c, rec in zip(dcases, recs):
+        case, exp = c["c"], c["e"]
+        if not exp["dom"]:
+            skip("%s outside its documented domain (%s)" % (case["op"], "raises" if rec["raised"] else "returns"))
+            continue
+        count(("decomp", case, rec["variant"]), len(case["dch"][0]) + len(case["dch"][1]) > 2)
+        cl = decomp_clause_py(exp, rec)
+        if cl:
+            violation("%s:%s:%s" % (case["op"], cl, decomp_class(case)), "%s: %s of a chunked matrix%s" % (cl, case["op"], (": " + rec["raised"]) if rec["raised"] else ""),
+                      {"decomp": case, "expected": exp, "variant": rec["variant"], "observed": rec})
+    return recs
+
+
+def decide_decomps(ctx, recs, violation):
+    """TLC decides every decomposition record (all clauses)"""
+    if not recs:
+        return
+    spec, cfg = ctx.model(ctx.spec("array", "TensorTrace.tla"), {})
+    rej = ctx.tlc_validate(spec, recs, cfg, timeout=1800, label="trace-validation: decompositions")
+    byid = {r["id"]: r for r in recs}
+    for rid, clauses in rej.items():
+        r = byid[rid]
+        case = {"op": r["c"]["op"], "shapes": r["c"]["shapes"], "dch": r["c"]["dch"]}
+        violation("%s:%s:%s" % (case["op"], first_clause(clauses[0]), decomp_class(case)),
+                  "TLC rejects a recorded %s (%s)%s" % (case["op"], clauses[0], (": " + r["raised"]) if r["raised"] else ""),
+                  {"decomp": case, "variant": r["variant"], "observed": r, "clauses": clauses})
+
+
 # ------------------------------------------------------------------ the check
-def enumerate_cases(ctx, ops, shapes, mmshapes, swapped, label):
+def enumerate_cases(ctx, ops, shapes, mmshapes, swapped, label, dshapes="{}"):
     """-> a job for sidebyside.in_parallel returning (cases, chunkings)"""
     import json
     spec, cfg = ctx.model(ctx.spec("array", "TensorMC.tla"),
-                          {"Ops": set(ops), "Shapes": TLA(shapes), "MMShapes": TLA(mmshapes), "Swapped": swapped}, invariants=INVS)
+                          {"Ops": set(ops), "Shapes": TLA(shapes), "MMShapes": TLA(mmshapes), "Swapped": swapped, "DShapes": TLA(dshapes)},
+                          invariants=INVS)
 
     def go():
         cases, _ = ctx.tlc_cases(spec, cfg, label="design+cases:" + label, timeout=2400)
@@ -474,6 +610,10 @@ def enumerate_cases(ctx, ops, shapes, mmshapes, swapped, label):
                      for c in cases if c["c"]["op"] == "chunkings"}
         return [c for c in cases if c["c"]["op"] != "chunkings"], chunkings
     return go
+
+
+def split_cases(cases):
+    return [c for c in cases if c["c"]["op"] not in DECOMP], [c for c in cases if c["c"]["op"] in DECOMP]
 
 
 class _Rng:
@@ -492,12 +632,18 @@ def run(ctx):
                   "{<<3>>, <<2>>, <<1, 2>>, <<2, 3>>, <<3, 2>>, <<3, 3>>, <<2, 2, 3>>, <<1, 3, 2>>, <<2, 3, 2>>, <<3, 1, 3>>, <<3, 2, 3>>}")
     # the recording forks worker processes: do it before any thread exists, then run both JVMs side by side
     ritems, recs = record(ctx.rng, ctx.pick(1200, 6000))
-    enum = enumerate_cases(ctx, OPS, shapes, mm, not ctx.quick, "tensor")
+    dshapes = ctx.pick("{<<4, 2>>, <<5, 2>>, <<6, 3>>, <<3, 3>>, <<2, 4>>, <<3, 5>>}",
+                       "{<<4, 2>>, <<5, 2>>, <<6, 2>>, <<5, 3>>, <<6, 3>>, <<7, 3>>, <<8, 4>>, <<3, 3>>, <<2, 4>>, <<2, 5>>, <<3, 6>>, <<3, 7>>}")
+    enum = enumerate_cases(ctx, OPS + list(DECOMP), shapes, mm, not ctx.quick, "tensor", dshapes)
     go, finish = decide(ctx, ritems, recs, ctx.violation, ctx.count)
     (cases, chunkings), verdicts = in_parallel([enum, go])
+    cases, dcases = split_cases(cases)
+    drecs = replay_decomps(ctx.rng, dcases, ctx.violation, ctx.count, ctx.skip)
     items, complete = replay_cases(ctx, cases, chunkings, ctx.pick(6, 24), ctx.pick(8, 96), ctx.pick(0.15, 1.0),
                                    ctx.violation, ctx.count, ctx.skip)
     finish(verdicts)
+    decide_decomps(ctx, drecs, ctx.violation)
+    ctx.sample({"decomposition": dcases[len(dcases) // 3]["c"], "expected": dcases[len(dcases) // 3]["e"]})
     for it in (items[0], items[len(items) // 2], items[-1]):
         ctx.sample({"case": it[0], "expected": it[1], "chunks_of_first_run": it[2][0][0]})
     if recs:
@@ -508,13 +654,21 @@ def run(ctx):
                 "block; distinct by (case, chunkings, variant)")
     ctx.extra["cases_enumerated_by_tlc"] = len(cases)
     ctx.extra["chunkings_enumerated_by_tlc"] = sum(len(v["all"]) + len(v["zero"]) for v in chunkings.values())
-    ctx.extra["not_decided"] = "qr / svd / tsqr / sfqr (floating-point linear algebra: outside an explicit-state integer model)"
+    ctx.extra["decomposition_cases"] = len(dcases)
+    ctx.extra["not_decided"] = ("the numerical content of Q / R / U / S / V beyond reconstruction, orthonormality and singular values within "
+                                "1e-6 on one small integer matrix per shape; lstsq / solve / inv / lu / cholesky (need scipy, absent)")
     ctx.assumptions = ["NumPy per-block kernels (tensordot, matmul, einsum, outer) are correct", "TLC evaluates the reference correctly",
                        "operand shapes bounded as listed in the tlc_runs constants; integer element ids only"]
 
 
 def replay(ctx, obj):
     c = obj["case"]
+    if "decomp" in c:
+        rec = run_decomp(("d0", c["decomp"], c["variant"]))
+        spec, cfg = ctx.model(ctx.spec("array", "TensorTrace.tla"), {})
+        rej = ctx.tlc_validate(spec, [rec], cfg)
+        print("decomposition:", c["decomp"], "\nobserved:", rec, "\nrejected:", rej)
+        return bool(rej)
     if "record" in c:
         r = c["record"]
         rec = _record((r["id"], c["case"], r["chunks"], r["variant"]))
@@ -541,8 +695,28 @@ def selftest(ctx):
     ok = True
     rng = random.Random(7)
     ritems, recs = record(random.Random(3), 100, "base")
-    (cases, chunkings), = in_parallel([enumerate_cases(ctx, OPS, "{<<2>>, <<3>>, <<2, 3>>, <<3, 2>>, <<2, 3, 2>>}",
-                                                       "{<<3>>, <<2, 3>>, <<3, 2>>, <<2, 2, 3>>}", False, "selftest")])
+    (cases, chunkings), = in_parallel([enumerate_cases(ctx, OPS + list(DECOMP), "{<<2>>, <<3>>, <<2, 3>>, <<3, 2>>, <<2, 3, 2>>}",
+                                                       "{<<3>>, <<2, 3>>, <<3, 2>>, <<2, 2, 3>>}", False, "selftest",
+                                                       "{<<5, 2>>, <<3, 5>>, <<3, 3>>}")])
+    cases, dcases = split_cases(cases)
+    dcases = [c for c in dcases if c["e"]["dom"]]
+
+    def attempt_decomp(tag):
+        sigs = []
+        drecs = replay_decomps(random.Random(9), dcases, lambda sig, what, rp: sigs.append(sig), lambda k, n: None, lambda r: None, tag)
+        return sigs, drecs
+    import dask.array.linalg as LA
+    dbase, dbase_recs = attempt_decomp("dbase")
+    print("selftest baseline (unchanged tree): %d violations on %d decompositions inside the documented domain" % (len(dbase), len(dcases)))
+    ok &= not dbase
+    dmut = []
+    for i, (name, fn, old, new) in enumerate([
+            ("tsqr cuts the second-stage Q into n-row pieces (short row blocks ignored)", "tsqr",
+             "q2_block_sizes = [min(e, n) for e in data.chunks[0]]", "q2_block_sizes = [n for e in data.chunks[0]]"),
+            ("svd forgets to drop the surplus singular vectors of a wide matrix chunked by rows", "svd", "if truncate:", "if truncate and False:"),
+            ("sfqr multiplies the remaining blocks by Q instead of Q'", "sfqr", "Rs.append(Q.T.dot(A_rest))", "Rs.append(Q.dot(A_rest))")]):
+        with source_mutant(LA, fn, old, new, count=1, also=[]):
+            dmut.append((name,) + attempt_decomp("dm%d-" % i))
 
     def attempt(ops, seed=5):
         sigs = []
@@ -605,7 +779,19 @@ def selftest(ctx):
             (corrupt("corrupted-shape", bad_shape), True), (corrupt("corrupted-lazy-chunks", bad_chunks), True),
             (corrupt("claims-an-exception", says_raised), True)]
     spec, cfg = ctx.model(ctx.spec("array", "TensorTrace.tla"), {})
-    allrecs = recs + [r for _i, _n, _s, rs in mrecs for r in rs] + [r for r, _w in hand]
+    gooddec = next(r for r in dbase_recs if r["c"]["op"] == "qr" and not r["raised"] and len(r["c"]["dch"][0]) > 1)
+
+    def corrupt_dec(name, fn):
+        r = copy.deepcopy(gooddec)
+        r["id"] = "c-" + name
+        fn(r)
+        return r
+    hand += [(corrupt_dec("decomposition-untouched", lambda r: None), False),
+             (corrupt_dec("R-not-triangular", lambda r: r.update(rlow=1)), True),
+             (corrupt_dec("QR-differs-from-A", lambda r: r.update(recon=10 ** 6)), True),
+             (corrupt_dec("Q-has-a-surplus-column", lambda r: r["f"][0]["cshape"].__setitem__(1, r["f"][0]["cshape"][1] + 1)), True),
+             (corrupt_dec("R-block-contradicts-its-chunks", lambda r: r["f"][1].update(blocksok=False)), True)]
+    allrecs = recs + [r for _i, _n, _s, rs in mrecs for r in rs] + [r for r, _w in hand] + dbase_recs + [r for _n, _s, rs in dmut for r in rs]
     rej = ctx.tlc_validate(spec, allrecs, cfg, timeout=1200)
     byitem = {it[0]: it for it in ritems + mitems}
 
@@ -622,6 +808,12 @@ def selftest(ctx):
               % (name, "DETECTED" if new else "MISSED", len(sigs), new[:2], "REJECTED" if trej else "accepted", trej[:2]))
         ok &= bool(new)
     ok &= any(sorted({sig_of(r["id"]) for r in rs if r["id"] in rej} - base_rej) for _i, _n, _s, rs in mrecs)
+    ok &= not any(r["id"] in rej for r in dbase_recs)
+    for name, sigs, rs in dmut:
+        trej = sorted({first_clause(rej[r["id"]][0]) for r in rs if r["id"] in rej})
+        print("selftest mutant [%s]: replay %s (%d violations, e.g. %s); TLC rejects %d of %d decomposition records %s"
+              % (name, "DETECTED" if sigs or trej else "MISSED", len(sigs), sorted(set(sigs))[:2], len([r for r in rs if r["id"] in rej]), len(rs), trej))
+        ok &= bool(sigs or trej) and bool(trej)
     for r, want in hand:
         got = r["id"] in rej
         print("selftest trace [%s]: %s %s" % (r["id"][2:], "rejected" if got else "accepted", rej.get(r["id"], "")))
